@@ -411,7 +411,7 @@ void error(const struct location *, const char *, ...);
 
 void scanfrom(const char *, FILE *);
 void scanopen(void);
-void scansetloc(struct location loc);
+void scansetloc(struct location loc, const struct location *eol);
 void scan(struct token *);
 
 /* preprocessor */
